@@ -537,6 +537,162 @@ fn index_of(init: &V, prog: &[Instr], term: &Terminal) -> Vec<usize> {
     v
 }
 
+thread_local! {
+    /// invocation counter for closures that capture nothing (function items are zero sized)
+    static CALLS: std::cell::Cell<u32> = const { std::cell::Cell::new(0) };
+}
+fn bump() {
+    CALLS.with(|c| c.set(c.get() + 1));
+}
+fn calls_and_reset() -> u32 {
+    CALLS.with(|c| c.replace(0))
+}
+
+/// The same table driven with ZERO SIZED callables (function items and non-capturing closures) and
+/// with payload / error types of any size: neither the size of the closure nor the size of the
+/// `Parsed` value may matter.
+fn fn_item_steps<T: Clone + PartialEq + std::fmt::Debug + Default>(tname: &str, report: &mut Report) {
+    fn alt_f<T>() -> Parsed<T, i64> {
+        bump();
+        Fallthrough
+    }
+    fn alt_ok<T: Default>() -> Parsed<T, i64> {
+        bump();
+        Res(Ok(T::default()))
+    }
+    fn alt_err<T>() -> Parsed<T, i64> {
+        bump();
+        Res(Err(9))
+    }
+    fn always_ok<T: Default>() -> Result<T, i64> {
+        bump();
+        Ok(T::default())
+    }
+    fn always_err<T>() -> Result<T, i64> {
+        bump();
+        Err(9)
+    }
+    fn give_up() -> i64 {
+        bump();
+        5
+    }
+    fn then_ok<T>(v: T) -> Result<T, i64> {
+        bump();
+        Ok(v)
+    }
+    fn then_err<T>(_v: T) -> Result<T, i64> {
+        bump();
+        Err(9)
+    }
+    fn also_ok<T>(_v: &mut T) -> Result<(), i64> {
+        bump();
+        Ok(())
+    }
+    fn also_err<T>(_v: &mut T) -> Result<(), i64> {
+        bump();
+        Err(9)
+    }
+    fn do_it<T>(_v: &mut T) {
+        bump();
+    }
+    fn id<T>(v: T) -> T {
+        bump();
+        v
+    }
+    fn inc(e: i64) -> i64 {
+        bump();
+        e + 1
+    }
+    let mut check = |what: String, ok: bool, detail: String| {
+        report.evaluations += 1;
+        report.transitions += 1;
+        report.nontrivial += 1;
+        if !ok {
+            report.violation(format!("combinator/zero-sized-callable-{tname}"), format!("payload type {tname}, zero sized callables: {what}: {detail}"), json!({"property": "C15", "payload": tname, "what": what}), 1);
+        }
+    };
+    #[derive(Clone, Debug, PartialEq)]
+    enum C<T> {
+        F,
+        Ok(T),
+        Err(i64),
+    }
+    fn to_p<T: Clone>(c: &C<T>) -> Parsed<T, i64> {
+        match c {
+            C::F => Fallthrough,
+            C::Ok(v) => Res(Ok(v.clone())),
+            C::Err(e) => Res(Err(*e)),
+        }
+    }
+    fn of_p<T>(p: Parsed<T, i64>) -> C<T> {
+        match p {
+            Fallthrough => C::F,
+            Res(Ok(v)) => C::Ok(v),
+            Res(Err(e)) => C::Err(e),
+        }
+    }
+    let cases: Vec<C<T>> = vec![C::F, C::Ok(T::default()), C::Err(7)];
+    for init in &cases {
+        let is_ok = matches!(init, C::Ok(_));
+        let is_f = matches!(init, C::F);
+        let is_err = matches!(init, C::Err(_));
+        calls_and_reset();
+        let got = of_p(to_p(init).or_parse(alt_f::<T>));
+        let n = calls_and_reset();
+        check(format!("{init:?}.or_parse(fn -> F)"), got == *init && n == is_f as u32, format!("got {got:?} with {n} call(s)"));
+        let got = of_p(to_p(init).or_parse(alt_ok::<T>));
+        let n = calls_and_reset();
+        check(format!("{init:?}.or_parse(fn -> Ok)"), got == if is_f { C::Ok(T::default()) } else { init.clone() } && n == is_f as u32, format!("got {got:?} with {n} call(s)"));
+        let got = of_p(to_p(init).or_parse(alt_err::<T>));
+        let n = calls_and_reset();
+        check(format!("{init:?}.or_parse(fn -> Err)"), got == if is_f { C::Err(9) } else { init.clone() } && n == is_f as u32, format!("got {got:?} with {n} call(s)"));
+        let as_result = |c: &C<T>, fallthrough: Result<T, i64>| match c {
+            C::F => fallthrough,
+            C::Ok(v) => Ok(v.clone()),
+            C::Err(e) => Err(*e),
+        };
+        let got = to_p(init).or_always_parse(always_ok::<T>);
+        let n = calls_and_reset();
+        check(format!("{init:?}.or_always_parse(fn -> Ok)"), got == as_result(init, Ok(T::default())) && n == is_f as u32, format!("got {got:?} with {n} call(s)"));
+        let got = to_p(init).or_always_parse(always_err::<T>);
+        let n = calls_and_reset();
+        check(format!("{init:?}.or_always_parse(fn -> Err)"), got == as_result(init, Err(9)) && n == is_f as u32, format!("got {got:?} with {n} call(s)"));
+        let got = to_p(init).or_give_up(give_up);
+        let n = calls_and_reset();
+        check(format!("{init:?}.or_give_up(fn)"), got == as_result(init, Err(5)) && n == is_f as u32, format!("got {got:?} with {n} call(s)"));
+        let got = of_p(to_p(init).and_then(then_ok::<T>));
+        let n = calls_and_reset();
+        check(format!("{init:?}.and_then(fn -> Ok)"), got == *init && n == is_ok as u32, format!("got {got:?} with {n} call(s)"));
+        let got = of_p(to_p(init).and_then(then_err::<T>));
+        let n = calls_and_reset();
+        check(format!("{init:?}.and_then(fn -> Err)"), got == if is_ok { C::Err(9) } else { init.clone() } && n == is_ok as u32, format!("got {got:?} with {n} call(s)"));
+        let got = of_p(to_p(init).and_also(also_ok::<T>));
+        let n = calls_and_reset();
+        check(format!("{init:?}.and_also(fn -> Ok)"), got == *init && n == is_ok as u32, format!("got {got:?} with {n} call(s)"));
+        let got = of_p(to_p(init).and_also(also_err::<T>));
+        let n = calls_and_reset();
+        check(format!("{init:?}.and_also(fn -> Err)"), got == if is_ok { C::Err(9) } else { init.clone() } && n == is_ok as u32, format!("got {got:?} with {n} call(s)"));
+        let got = of_p(to_p(init).and_do(do_it::<T>));
+        let n = calls_and_reset();
+        check(format!("{init:?}.and_do(fn)"), got == *init && n == is_ok as u32, format!("got {got:?} with {n} call(s)"));
+        let got = of_p(to_p(init).map(id::<T>));
+        let n = calls_and_reset();
+        check(format!("{init:?}.map(fn)"), got == *init && n == is_ok as u32, format!("got {got:?} with {n} call(s)"));
+        let got = of_p(to_p(init).map_err(inc));
+        let n = calls_and_reset();
+        check(format!("{init:?}.map_err(fn)"), got == if let C::Err(e) = init { C::Err(e + 1) } else { init.clone() } && n == is_err as u32, format!("got {got:?} with {n} call(s)"));
+        if !is_f {
+            let r: Result<T, i64> = as_result(init, Err(0));
+            let got = ResultExt::and_also(r.clone(), also_ok::<T>);
+            let n = calls_and_reset();
+            check(format!("Result {r:?}.and_also(fn -> Ok)"), got == r && n == is_ok as u32, format!("got {got:?} with {n} call(s)"));
+            let got = ResultExt::and_do(r.clone(), do_it::<T>);
+            let n = calls_and_reset();
+            check(format!("Result {r:?}.and_do(fn)"), got == r && n == is_ok as u32, format!("got {got:?} with {n} call(s)"));
+        }
+    }
+}
+
 /// Single-step table for an arbitrary payload type (the combinators are generic: the payload type -
 /// zero sized, one byte, heap allocated - must not matter): every method once per input case and
 /// closure outcome, with invocation counts.
@@ -759,6 +915,13 @@ pub fn run(tier: Tier, report: &mut Report) {
     single_steps::<String>(&|| "payload".to_string(), "String", report);
     single_steps::<Vec<u128>>(&|| vec![1, 2, 3], "Vec", report);
     single_steps::<Option<Box<i64>>>(&|| None, "None", report);
+    single_steps::<[u64; 32]>(&|| [7; 32], "256-bytes", report);
+    single_steps::<[u128; 20]>(&|| [1; 20], "320-bytes", report);
+    fn_item_steps::<()>("unit", report);
+    fn_item_steps::<u8>("u8", report);
+    fn_item_steps::<String>("String", report);
+    fn_item_steps::<[u64; 32]>("256-bytes", report);
+    report.completed.push("the same table with zero sized callables (function items, invocations counted through a thread local) for the payload types (), u8, String, [u64; 32]; payloads of 256 and 320 bytes in the closure-driven table".to_string());
     report.completed.push("single-step table of every method x input case x closure outcome for the payload types (), [u64; 0], u8, String, Vec<u128>, Option<Box<i64>>".to_string());
     report.completed.push(format!(
         "all programs of <= {max_len} combinators ({} instruction variants) x 3 initial cases x {} terminals",
@@ -776,6 +939,12 @@ pub fn replay(v: &Value) -> (bool, String) {
         single_steps::<String>(&|| "payload".to_string(), "String", &mut r);
         single_steps::<Vec<u128>>(&|| vec![1, 2, 3], "Vec", &mut r);
         single_steps::<Option<Box<i64>>>(&|| None, "None", &mut r);
+        single_steps::<[u64; 32]>(&|| [7; 32], "256-bytes", &mut r);
+        single_steps::<[u128; 20]>(&|| [1; 20], "320-bytes", &mut r);
+        fn_item_steps::<()>("unit", &mut r);
+        fn_item_steps::<u8>("u8", &mut r);
+        fn_item_steps::<String>("String", &mut r);
+        fn_item_steps::<[u64; 32]>("256-bytes", &mut r);
         let text: String = r.violations.values().map(|x| format!("  {}\n", x.what)).collect();
         return (r.violation_count > 0, format!("single-step table over the payload types: {} deviation(s)\n{text}", r.violation_count));
     }
